@@ -7,7 +7,7 @@ import os
 from .. import artefacts
 from ..program import AnalysisError, Program, norm, walk_local, ancestors
 from ..report import Check
-from ..util import calls_in, fkey, is_method_call, path_of, recv_of, where
+from ..util import calls_in, fkey, is_method_call, node_calls, path_of, recv_of, where
 
 PAR = "pyrtma.parser"
 BACKEND_MODS = ["pyrtma.compilers.python", "pyrtma.compilers.c99", "pyrtma.compilers.javascript", "pyrtma.compilers.matlab",
@@ -246,23 +246,50 @@ def run(prog: Program, chk: Check):
     # the local holding the loaded document, whatever it is called
     loads = [n.targets[0].id for n in walk_local(pt.node) if isinstance(n, ast.Assign) and len(n.targets) == 1 and isinstance(n.targets[0], ast.Name) and isinstance(n.value, ast.Call) and is_method_call(n.value, ("load", "safe_load"))]
     dv = loads[0] if loads else "data"
-    for st in pt.node.body:
-        if not isinstance(st, ast.If):
+    # a section block, however it is spelt: a loop over the entries of data[S] / data.get(S) (directly or through a local)
+    # whose body hands each entry to a handle_* method, followed - whenever the loop completes - by
+    # self.yaml_dict[S].update(<the same entries>)
+    from .. import cfg as C_, flow as F_
+    from ..dataflow import definitions as _defs
+
+    def section_of(e):
+        """S when expression e denotes the document's section S: data['S'], data.get('S'), or a local bound once to one of these"""
+        if isinstance(e, ast.Name):
+            ds = [r for k_, r in _defs(pt.node, e.id) if k_ == "assign"]
+            return section_of(ds[0]) if len(ds) == 1 else None
+        if isinstance(e, ast.Subscript) and path_of(e.value) == dv and isinstance(e.slice, ast.Constant) and isinstance(e.slice.value, str):
+            return e.slice.value
+        if isinstance(e, ast.Call) and is_method_call(e, "get") and path_of(recv_of(e)) == dv and len(e.args) == 1 and isinstance(e.args[0], ast.Constant) and isinstance(e.args[0].value, str):
+            return e.args[0].value
+        return None
+
+    ptg_ = C_.build(pt.node)
+    seen_secs = {}
+    for lpn in [n for n in ptg_.nodes if n.kind == "for"]:
+        lp = lpn.ast
+        it = lp.iter
+        base = it.func.value if isinstance(it, ast.Call) and isinstance(it.func, ast.Attribute) and it.func.attr in ("items", "values", "keys") else it
+        sec = section_of(base)
+        handled = [c for c in calls_in(lp) if isinstance(c.func, ast.Attribute) and c.func.attr.startswith("handle_") and path_of(c.func.value) == "self"]
+        if sec is None or not handled:
             continue
-        t = norm(st.test)
-        if not (t.startswith(f"{dv}.get(") and t.endswith("is not None")):
-            continue
-        sec = st.test.left.args[0].value if isinstance(st.test, ast.Compare) and isinstance(st.test.left, ast.Call) and st.test.left.args and isinstance(st.test.left.args[0], ast.Constant) else None
-        handled = [c for c in calls_in(st) if isinstance(c.func, ast.Attribute) and c.func.attr.startswith("handle_")]
-        if not handled or sec is None:
-            continue
+        seen_secs.setdefault(sec, []).append(lpn)
+    for sec, lpns in sorted(seen_secs.items()):
         nsec += 1
         if sec == "imports":
-            Y.ok(fkey(pt, f"section:{sec}"), where(pt, st), "imports are flattened by construction (the imported sections are merged)")
+            Y.ok(fkey(pt, f"section:{sec}"), where(pt, lpns[0].ast), "imports are flattened by construction (the imported sections are merged)")
             continue
-        upd = [c for c in calls_in(st) if is_method_call(c, "update") and norm(c.func.value).replace('"', "'") == f"self.yaml_dict['{sec}']" and c.args and norm(c.args[0]).replace('"', "'") == f"{dv}['{sec}']"]
-        unconditional = bool(upd) and all(not any(isinstance(a, (ast.For, ast.If)) and a is not st for a in ancestors(c) if any(x is st for x in ancestors(a)) or a is st) for c in upd)
-        Y.decide(bool(upd) and unconditional, fkey(pt, f"section:{sec}"), where(pt, st), f"yaml_dict['{sec}'] updated with data['{sec}']",
+        upd_nodes = [n for n in ptg_.nodes for c in node_calls(n) if is_method_call(c, "update") and norm(c.func.value).replace('"', "'") == f"self.yaml_dict['{sec}']" and c.args and section_of(c.args[0]) == sec]
+        okm = bool(upd_nodes)
+        for lpn in lpns:
+            # from the completion of the handler loop no normal path reaches the function's exit without the update
+            done = [e.dst for e in ptg_.succ[lpn.id] if e.kind == "done"]
+            r = F_.reach(ptg_, done, blocked={u.id for u in upd_nodes}, follow=lambda e: e.kind != "exc", blocked_pass_exc=False)
+            if ptg_.exit.id in r and not ({u.id for u in upd_nodes} & set(done)):
+                okm = False
+            if any(d in {u.id for u in upd_nodes} for d in done):
+                pass
+        Y.decide(okm, fkey(pt, f"section:{sec}"), where(pt, lpns[0].ast), f"yaml_dict['{sec}'] updated with the section's entries whenever its handlers completed",
                  f"section `{sec}` is handled but not mirrored into self.yaml_dict['{sec}'] (lost from the combined YAML)")
     if nsec < 8:
         raise AnalysisError(f"anchor vanished: expected >= 8 handled sections in parse_text, found {nsec}")
@@ -285,7 +312,14 @@ def run(prog: Program, chk: Check):
             if nd.kind == "stmt" and nd.id in live and isinstance(n, ast.Assign) and any(
                     isinstance(t, ast.Subscript) and isinstance(t.slice, ast.Constant) and t.slice.value == key
                     and norm(t.value).replace('"', "'") == "self.yaml_dict['message_defs']" for t in n.targets):
-                txt = norm(n.value).replace('"', "'")
+                class _Sec(ast.NodeTransformer):  # `message_defs = data.get('message_defs')` used as an alias of the section
+                    def visit_Name(self_, x):
+                        sc = section_of(x) if isinstance(x.ctx, ast.Load) else None
+                        return ast.copy_location(ast.parse(f"{dv}[{sc!r}]", mode="eval").body, x) if sc else x
+
+                import copy as _cp
+
+                txt = norm(_Sec().visit(_cp.deepcopy(n.value))).replace('"', "'")
                 # the stored value must combine the previous entry with this file's entry
                 prev = [d for d in walk_local(pt.node) if isinstance(d, ast.Assign) and isinstance(d.value, ast.Call) and is_method_call(d.value, "get")
                         and d.value.args and isinstance(d.value.args[0], ast.Constant) and d.value.args[0].value == key]
